@@ -100,7 +100,7 @@ class Runner:
             p = os.path.join(os.fsencode(d), n)
             os.makedirs(os.path.dirname(p), exist_ok=True)
             with open(p, "wb") as f:
-                f.write(c)
+                f.write(c.replace(b"@ABS@", os.fsencode(d)))     # absolute paths are known only now
         argv = [os.fsencode(self.exe), b"-c", case.main]
         for s in case.sets:
             argv += [b"--set", s]
